@@ -264,9 +264,10 @@ def canonical(events):
     cur[s] = v; out.append((t, s, v))
   return out
 
-def body_events(tokens):
+def body_events(tokens, decls):
   """parse a blank-separated value-change section (model output) into events"""
-  return VP.parse('$enddefinitions $end ' + ' '.join(tokens))['events']
+  hdr = '$scope module m $end ' + ' '.join(f'$var reg {w} {sym} n{i} $end' for i, (w, sym) in enumerate(decls)) + ' $upscope $end '
+  return VP.parse(hdr + '$enddefinitions $end ' + ' '.join(tokens))['events']
 
 def check_design(ck, case, r, lines_out):
   """direct oracle on the file; returns the model requests (evaluated later in one batch) and their expectations"""
@@ -280,7 +281,10 @@ def check_design(ck, case, r, lines_out):
   try:
     vcd = VP.parse(r.text)
   except VP.VcdError as e:
-    viol('unreadable-vcd', {'error': str(e)}); return None
+    viol('unreadable-vcd', {'error': str(e), 'line_number': e.lineno, 'line': e.line, 'time': e.time,
+                            'cycle': None if e.time is None else e.time // 100,
+                            'oracle': 'strict independent VCD reader: the dump must be well-formed VCD'})
+    return None
   decls, events = vcd['decls'], vcd['events']
   dmap = {}
   for sc, name, w, sym in decls:
@@ -413,7 +417,7 @@ def compare_model(ck, case, r, replies, ctx):
     k = next((i for i, (a, b) in enumerate(zip(mtoks, vcd['body'])) if a != b), min(len(mtoks), len(vcd['body'])))
     ck.disagreement('Model/VCD.dump == file (exact lines)', case, mtoks[max(0, k - 4):k + 6], vcd['body'][max(0, k - 4):k + 6])
   # (2) canonical event streams (restatements removed)
-  try: mev = body_events(mtoks)
+  try: mev = body_events(mtoks, sorted(set(map(tuple, sig_decl))))
   except VP.VcdError as e: raise InfraError(f'model dump not parseable: {e}')
   cm, cf = canonical(mev), canonical(vcd['events'])
   if cm != cf:
